@@ -110,6 +110,56 @@ class AreDependent(Case):
         H.check('may-overlap=>dependent', implies(conflict, res))
 
 
+class GenerateDependencesPair(AreDependent):
+    """generate_dependences on a trace of two stores: the pair is exported as ordered whenever the two writes do not commute.
+    (The function examines every pair (j, i), j < i, of the trace independently of the others - its loops carry no state but
+    the result list - so the pairwise clause lifts to traces of any length: stated meta-step.)"""
+    functions = (go.generate_dependences,)
+
+    def __init__(self, k1, k2, loc, shape, same_value):
+        AreDependent.__init__(self, k1, k2, loc, shape)
+        self.same_value = same_value
+        self.name = "generate_dependences[%s,%s,%s,%s]" % (k1, k2, shape, 'same-value' if same_value else 'different-values')
+
+    native_cover = True
+    NAMES = ['s(1)', 's(2)', 's(11)']      # stack-variable addresses: concrete names (the code walks over their characters)
+
+    def addr(self, H, name, is_const):
+        if not is_const:
+            return H.choice(name, self.NAMES), None
+        if H.symbolic:
+            return AreDependent.addr(self, H, name, True)
+        v = H.word(name)
+        return str(v), v
+
+    def run(self, H):
+        c1, c2 = self.shape[0] == 'c', self.shape[1] == 'c'
+        a1, v1 = self.addr(H, 'a1', c1)
+        a2, v2 = self.addr(H, 'a2', c2)
+        H.set_global(go, 'extra_dep_info', {})
+        H.set_global(go, 'mem40_pattern', False)
+        H.set_global(go, 'u_dict', {})
+        t1 = ((a1, "s(9)", self.k1), 2)
+        t2 = ((a2, "s(9)" if self.same_value else "s(8)", self.k2), 2)
+        out = H.call(go.generate_dependences, [t1, t2], self.loc)
+        H.check('raises-nothing', out.ok, info=repr(out.exc))
+        if not out.ok:
+            return
+        ordered = (0, 1) in [tuple(x) for x in out.value]
+        same_name = (a1 == a2) if not (c1 or c2) else False
+        if self.loc == "storage":
+            overlap = (v1 == v2) if (c1 and c2) else True
+            same_place = (v1 == v2) if (c1 and c2) else same_name
+        else:
+            overlap = sand(v1 < v2 + width(self.k2), v2 < v1 + width(self.k1)) if (c1 and c2) else True
+            same_place = sand((v1 == v2) if (c1 and c2) else same_name, width(self.k1) == width(self.k2))
+        if self.loc == "storage" and self.same_value:
+            commute = True          # equal keys: same word written twice; different keys: different slots
+        else:
+            commute = sor(snot(overlap), sand(same_place, self.same_value))
+        H.check('writes-that-do-not-commute-are-ordered', implies(snot(commute), ordered))
+
+
 def get_variables_stub(it, var, lst):
     return None
 
@@ -153,7 +203,9 @@ def generated_mem_blocks(tier):
         for k, o in zip(ks, os_):
             b += ["PUSH " + o, k]
         out.append(' '.join(b))
-    out += ["PUSH 1 SSTORE PUSH 2 SSTORE SSTORE", "PUSH 1 SSTORE SWAP1 SSTORE PUSH 1 SSTORE", "SWAP1 PUSH 2 SSTORE PUSH 1 SSTORE SSTORE",
+    out += ["PUSH 10 MSTORE PUSH 10 MLOAD PUSH 14 MSTORE", "DUP1 PUSH 10 MSTORE PUSH 14 MSTORE", "DUP1 PUSH 1f MSTORE8 PUSH 0 MSTORE",
+            "DUP1 PUSH 0 MSTORE PUSH 1f MSTORE8",                     # same value stored at overlapping, different positions (F24)
+            "PUSH 1 SSTORE PUSH 2 SSTORE SSTORE", "PUSH 1 SSTORE SWAP1 SSTORE PUSH 1 SSTORE", "SWAP1 PUSH 2 SSTORE PUSH 1 SSTORE SSTORE",
             "PUSH 0 MSTORE8 SWAP2 PUSH 0 MSTORE SWAP1 PUSH 28 MSTORE PUSH 10 MSTORE", "PUSH 0 MSTORE PUSH 0 MSTORE8", "PUSH 0 MSTORE8 PUSH 0 MSTORE",
             "PUSH 20 MSTORE PUSH 40 MLOAD PUSH 20 MSTORE8", "DUP1 PUSH 0 MSTORE PUSH ff PUSH 1f MSTORE8 PUSH 0 MLOAD"]
     return out
@@ -240,5 +292,13 @@ def cases(tier='quick'):
         for k2 in STO_KINDS:
             for shape in ('cc', 'cs', 'sc', 'ss'):
                 cs.append(AreDependent(k1, k2, "storage", shape))
+    for k1 in ("mstore", "mstore8"):
+        for k2 in ("mstore", "mstore8"):
+            for shape in ('cc', 'cs', 'sc', 'ss'):
+                for same in (False, True):
+                    cs.append(GenerateDependencesPair(k1, k2, "memory", shape, same))
+    for shape in ('cc', 'cs', 'sc', 'ss'):
+        for same in (False, True):
+            cs.append(GenerateDependencesPair("sstore", "sstore", "storage", shape, same))
     cs.append(SpecDenotesBlock())
     return cs, {}
